@@ -58,6 +58,43 @@ func (r *RectClip64) Execute(paths Paths64) Paths64 {
 	return result
 }
 
+// Execute clips open paths: unlike the polygon clipper it never closes a result, keeps
+// two-point paths and has no "fully inside" shortcut that would depend on closed-path bounds.
+func (r *RectClipLines64) Execute(paths Paths64) Paths64 {
+	result := Paths64{}
+
+	if r.rect.IsEmpty() {
+		return result
+	}
+
+	for _, path := range paths {
+		if len(path) < 2 {
+			continue
+		}
+		r.pathBounds = getBounds(path)
+
+		if !r.rect.Intersects(r.pathBounds) {
+			continue
+		}
+
+		r.executeInternalPath64(path)
+
+		for _, op := range r.results {
+			tmp := r.getPath(op)
+			if len(tmp) > 0 {
+				result = append(result, tmp)
+			}
+		}
+
+		r.results = r.results[:0]
+		for i := 0; i < 8; i++ {
+			r.edges[i] = r.edges[i][:0]
+		}
+	}
+
+	return result
+}
+
 func RectClipLinesPaths64(rect Rect64, paths Paths64) Paths64 {
 	if rect.IsEmpty() || len(paths) == 0 {
 		return Paths64{}
